@@ -141,6 +141,7 @@ func (f *fetchModel) storeBatch(mp *mpart, b *cf.Batch) {
 		// LogAppendTime topic: the broker set the timestamp-type bit and stamped the batch (v2: MaxTimestamp; v1: the
 		// message or wrapper timestamp); every record of the batch carries that time for a consumer
 		wb.logAppend = true
+		wb.wrapperOnlyTs = b.AppendTsMs%2 == 0
 		wb.maxTs = b.AppendTsMs
 		for _, r := range mb.recs {
 			r.tsMs = b.AppendTsMs
